@@ -81,7 +81,7 @@ if __import__("os").environ.get("JV_X64", "1") == "0":
     RT, AT = 5e-3, 5e-5
 
 
-def compare(rec, out, ref, n, sig, label):
+def compare(rec, out, ref, n, sig, label, tight=False):
     """out: 9-tuple of solve; ref: dict of ref_loop"""
     ok_all = True
 
@@ -95,6 +95,16 @@ def compare(rec, out, ref, n, sig, label):
     if h.shape != (n,):
         bad("history-shape", "loss history has shape %s for n_iter=%d" % (h.shape, n))
         return False
+    # the histories record the loss values: same floating-point type as the values the loss returns in this mode
+    want = np.dtype("float64" if __import__("os").environ.get("JV_X64", "1") != "0" else "float32")
+    for nm_, arr_ in [("total", hist)] + [(k_, v_) for k_, v_ in terms.items()]:
+        if np.asarray(arr_).dtype != want:
+            bad("history-dtype", "history of %s has dtype %s, the loss values are %s" % (nm_, np.asarray(arr_).dtype, want))
+            break
+    if tight and not np.allclose(h, ref["hist"], rtol=1e-10, atol=1e-13):
+        j = int(np.argmax(np.abs(h - ref["hist"]) > 1e-13 + 1e-10 * np.abs(ref["hist"])))
+        bad("loss-history/rounded", "loss history differs from the reference loop beyond rounding (no float32 schedule in "
+            "this program) first at iteration %d: %r vs %r" % (j, h[j], ref["hist"][j]))
     if not np.allclose(h, ref["hist"], rtol=RT, atol=AT):
         j = int(np.argmax(np.abs(h - ref["hist"]) > AT + RT * np.abs(ref["hist"])))
         # attribute: shifted by one? batch reused?
@@ -193,7 +203,9 @@ def run_case(case, rec):
     if "p" not in _PRIME and np.allclose(np.asarray(out[1]), ref["hist"], rtol=RT, atol=AT):
         _PRIME["p"] = pbest
     rec.count("prime_%d" % pbest)
-    ok = compare(rec, out, ref, n, sig, label)
+    # without a learning-rate schedule nothing is computed in float32 in 64-bit mode: histories agree to rounding
+    tight = prog["opt"] in ("sgd", "adam") and case.get("x64", True) and prog["kind"] not in ("spinn1", "hyper")
+    ok = compare(rec, out, ref, n, sig, label, tight=tight)
     rec.count("programs_compared")
     rec.count("iterations_compared", n)
     if int(ref["n_done"]) != n:
@@ -220,4 +232,4 @@ def run_case(case, rec):
                                 validation=val)
         rec.count("resumed_programs")
         rec.count("iterations_compared", n2)
-        compare(rec, out2, ref2, n2, sig + "/resumed", label + " resumed +%d" % n2)
+        compare(rec, out2, ref2, n2, sig + "/resumed", label + " resumed +%d" % n2, tight=tight)
